@@ -195,6 +195,30 @@ func CheckPIT(ctx context.Context, c ledgercontroller.Controller, ref *Ref, rep 
 				}
 			}
 		}
+		// a start time alone (OOT set, no PIT): everything since oot, in both date modes
+		// (seeded change C05 applied the lower bound to effective_date in insertion mode
+		// when no PIT was given)
+		for _, oot := range dates {
+			for _, useIns := range []bool{false, true} {
+				mode := "effective"
+				if useIns {
+					mode = "insertion"
+				}
+				vols, err := ListVols(ctx, c, common.ResourceQuery[ledger.GetVolumesOptions]{OOT: ltp(oot), Opts: ledger.GetVolumesOptions{UseInsertionDate: useIns}})
+				if err != nil {
+					rep.Add("read:GetVolumesWithBalances(window-oot-only):"+Classify(err), "%v", err)
+					continue
+				}
+				want := ref.Volumes(func(x *RefTx) bool {
+					d := x.TS
+					if useIns {
+						d = x.InsertedAt
+					}
+					return !d.Before(oot)
+				})
+				checkVolumeListing(vols, want, "window-oot-only-"+mode, rep)
+			}
+		}
 		for _, oot := range dates {
 			for _, pit := range dates {
 				if pit.Before(oot) {
